@@ -213,7 +213,7 @@ def main():
         if key.endswith("_PRODUCTION_MULTIPLIER"):
             tgt = {k for k in tgt if k in flat(c_base)}
         if ch != tgt:
-            bad("OverrideIsolation:%s" % ("head" if key.endswith("_head") else key), dict(key=key, changed=sorted(ch), want=sorted(tgt)))
+            bad("OverrideIsolation:%s" % ("head" if key.endswith("_head") else key), dict(override=key, changed=sorted(ch), want=sorted(tgt)))
         if key.endswith("_head") and BASE is BASE_COUNTRY:
             # the override must reach the stock table the herd model is built from: exactly the named species changes
             ap.AnimalModelBuilder.create_animal_objects = staticmethod(w_create) if False else w_create
@@ -227,11 +227,11 @@ def main():
                 row = seen["row"]
                 base_row = stock_csv.loc["ARG"]
                 if float(row.get(key, float("nan"))) != float(val):
-                    bad("OverrideReachesStockTable:%s" % key, dict(key=key, got=repr(row.get(key)), want=val))
+                    bad("OverrideReachesStockTable:%s" % key, dict(override=key, got=repr(row.get(key)), want=val))
                 others = [k for k in base_row.index if k != key and k != "country" and not same(base_row[k], row.get(k))]
                 extra_cols = [k for k in row.index if k not in base_row.index]
                 if others or extra_cols:
-                    bad("OverrideIsolation:stock-table:%s" % key, dict(key=key, changed=others[:5], new_columns=extra_cols[:5]))
+                    bad("OverrideIsolation:stock-table:%s" % key, dict(override=key, changed=others[:5], new_columns=extra_cols[:5]))
             except BaseException as ex:  # noqa
                 bad("Override:herd-exception:%s" % key, dict(exc=repr(ex)[:160]))
             finally:
